@@ -968,9 +968,17 @@ def declare_decoder(w):
         def post(a, h, h2, r):
             n = bs_len(h, a.self)
             st = stack(h, a.self)
+            from pyvc.symexec import py_clamp
+
+            lo = z3.If(n == 0, z3.Length(st), py_clamp(-n, z3.Length(st)))
+            tk = z3.SubSeq(st, lo, z3.Length(st) - lo)          # the last n entries (all of them if there are fewer; none for n == 0)
+            tag = z3.IntVal(code) if code is not None else a.type_
+            built = z3.If(tag == TAG["tuple"], Val.VTuple(tk), z3.If(tag == TAG["set"], Val.VSet(mk_set_seq(tk)), Val.VFrozenSet(mk_set_seq(tk))))
             return [consumed(h, h2, a.self, 4), z3.Length(stack(h2, a.self)) >= 1,
                     z3.Implies(z3.And(n > 0, n <= z3.Length(st)), z3.Length(stack(h2, a.self)) == z3.Length(st) - n + 1),
-                    z3.Implies(n == 0, z3.Length(stack(h2, a.self)) == z3.Length(st) + 1)]
+                    z3.Implies(n == 0, z3.Length(stack(h2, a.self)) == z3.Length(st) + 1),
+                    # whole view: everything below the taken entries is untouched, and exactly one value - of the requested type, built from exactly those entries in order - is on top
+                    stack(h2, a.self) == z3.Concat(z3.SubSeq(st, 0, lo), z3.Unit(built))]
         return post
 
     def coll_contract(name, code, hashy):
